@@ -9,7 +9,7 @@
 From Coq Require Import List NArith ZArith Bool.
 From Fabio Require Import Lib.Outcome Lib.Bytes Lib.Verdict Model.WtF64 Model.TableCmd Model.RouteText
      Model.Weigh Model.WeighF Model.Ring Model.Pick Model.TableSwap.
-From Fabio Require Model.Lookup Model.Watch.
+From Fabio Require Model.Lookup Model.Watch Model.TcpDynamic.
 Import ListNotations.
 Local Open Scope N_scope.
 
@@ -139,7 +139,12 @@ Inductive case :=
 | CCustomPolls (e : env) (bodies : list (option (option (list (option def)))))
                (verdicts : list (outcome tobs)) (impl : list (option tobs))
 (* route.ParseAliases(text): the register= values, an error kind, or a recovered panic *)
-| CAliases (e : env) (text : str) (impl : outcome (list str)).
+| CAliases (e : env) (text : str) (impl : outcome (list str))
+(* the real tcp-dynamic listener loop of startServers: the addresses served when the history began,
+   then per step the ports nobody can bind during the step (held by another socket; no port number
+   according to net.ResolveTCPAddr), the table route.GetTable() returned (host key, target schemes)
+   and the addresses served once the loop has seen it (None = the process died) *)
+| CTcpDyn (init : list str) (steps : list (list str * list (str * list str) * option (list str))).
 
 Definition check_build (e : env) (bo : outcome btable) (ds : outcome (list def))
            (impl : outcome tobs) (lookups : list (req * outcome lobs)) (in_dom nontrivial : bool) : N :=
@@ -251,6 +256,21 @@ Definition check_case (c : case) : N :=
       let spec := list_eqb (opt_eqb tobs_eqb) impl (exp [] verdicts)
                   && forallb (fun v => not_panic v) verdicts in
       verdict same spec None (existsb (fun v => match v with Err _ => true | _ => false end) verdicts)
+  | CTcpDyn init steps =>
+      let h := map (fun s => match s with (u, t, _) => (TcpDynamic.world_of u, t) end) steps in
+      let impl := map (fun s => match s with (_, _, o) => o end) steps in
+      let m := map (fun s => match s with
+                             | TcpDynamic.DRun d => Some (TcpDynamic.d_served d)
+                             | TcpDynamic.DCrashed => None end)
+                   (TcpDynamic.trace_dyn h (TcpDynamic.DRun (TcpDynamic.Dyn [] init))) in
+      let set_eqb (a b : list str) := forallb (fun x => TcpDynamic.smem x b) a
+                                      && forallb (fun x => TcpDynamic.smem x a) b in
+      let same := list_eqb (opt_eqb set_eqb) impl m in
+      (* the property's demand: whatever the tables name, the process is alive after every step *)
+      let spec := forallb (fun o => match o with Some _ => true | None => false end) impl in
+      verdict same spec None
+        (existsb (fun s => match s with (u, t, _) =>
+                    existsb (fun p => TcpDynamic.smem p u) (TcpDynamic.ports_of t) end) steps)
   | CAliases e text impl =>
       let m := parse_aliases (pweight_of e) text in
       verdict (out_eqb (list_eqb beq) impl m) (not_panic impl) None
